@@ -251,6 +251,9 @@ func (msg *MessageAuth) FromBytes(src []byte) error {
 	if l < MessageAuthBytesMin {
 		return ErrNotEnoughSourceBytes
 	}
+	if l > MessageAuthBytesMax {
+		return ErrIncorrectSourceBytes
+	}
 
 	// number of chunks: every chunk occupies up to MessageChunkBytesMax+2 bytes (round up)
 	p, q := 0, (l+MessageChunkBytesMax+1)/(MessageChunkBytesMax+2)
@@ -262,7 +265,8 @@ func (msg *MessageAuth) FromBytes(src []byte) error {
 
 		chunk.Length = src[p]
 		if (q > 1 && i < q-1 && int(chunk.Length) != MessageChunkBytesMax) ||
-			(l < p+2+int(chunk.Length)) || int(chunk.Length) < MessageChunkBytesMin {
+			(l < p+2+int(chunk.Length)) || int(chunk.Length) < MessageChunkBytesMin ||
+			(i == q-1 && l != p+2+int(chunk.Length)) { // nothing may follow the last chunk
 			return ErrIncorrectSourceBytes
 		}
 
@@ -287,6 +291,11 @@ func (msg *MessageAuth) FromChunks(chunks []*MessageChunk) error {
 		default:
 			return ErrIncorrectSourceBytes
 		}
+	}
+
+	if l > MessageAuthBytesMax-4 {
+		// more than two chunks' worth of payload: longer than any valid message
+		return ErrIncorrectSourceBytes
 	}
 
 	src := make([]byte, 0, l)
